@@ -25,6 +25,7 @@ RULE = ("boundary-stratified seeded inputs (k + {0, +-tol(1+-0.1), +-1/2, +-(1/2
 ASSUMPTIONS = ["python float arithmetic / math.floor / numpy.linalg as oracle arithmetic",
                "values within 4 ulp of a tolerance boundary are not judged (either answer is correct)"]
 SHARDS = {"quick": 1, "thorough": 8}
+SUITE_UNDER_MONITOR = True
 
 _mon: Monitor = None  # type: ignore
 
@@ -389,7 +390,8 @@ def post_apply_affine(args, kw, res, exc, snap):
     a, b, c, d, e, f = _aff6(A)
     wx, wy = a * x + b * y + c, d * x + e * y + f
     s = max(1.0, float(np.abs(wx).max(initial=0)), float(np.abs(wy).max(initial=0)))
-    ok = res[0].shape == x.shape and np.allclose(res[0], wx, rtol=0, atol=1e-9 * s, equal_nan=True) and np.allclose(res[1], wy, rtol=0, atol=1e-9 * s, equal_nan=True)
+    eps = 1e-9 if (np.asarray(x).dtype.itemsize >= 8 and np.asarray(y).dtype.itemsize >= 8) else 1e-5  # float32 inputs
+    ok = res[0].shape == x.shape and np.allclose(res[0], wx, rtol=0, atol=eps * s, equal_nan=True) and np.allclose(res[1], wy, rtol=0, atol=eps * s, equal_nan=True)
     _mon.check(bool(ok), "apply_affine", lambda: {"A": _aff6(A), "shape": x.shape}, key="apply_affine-contract")
 
 
